@@ -56,6 +56,18 @@
 (* views share one dtype object, so a rename may show on arrays of the SAME lineage; *)
 (* it must never show on an array of another lineage, and a conversion always       *)
 (* returns the field structure of ITS argument.                                     *)
+(*                                                                                 *)
+(* SESSIONS (the world).  A process executes a SEQUENCE of chains, a session; the    *)
+(* module-level state of the library is part of the world a call runs in.  The       *)
+(* statement gives no conversion a memory: what a step may return is a function of   *)
+(* the arrays alive in ITS chain alone, so every chain of a session is judged by the *)
+(* same history-free clauses as a chain run in a fresh process,                      *)
+(* and an outcome that is allowed in a fresh process but not reached after earlier    *)
+(* chains (or the other way round) is a violation located in the SESSION.            *)
+(* BOMemo* is an implementation-shaped deviating mechanism for that dimension: a      *)
+(* module-level memo of what was found out about a dtype, keyed by the dtype OBJECT   *)
+(* (hash taken when it is filed), bounded (oldest evicted), which the caller's        *)
+(* in-place rename poisons.                                                           *)
 EXTENDS VU
 
 CONSTANT MachineLE          \* TRUE on a little-endian machine
@@ -287,4 +299,35 @@ BOMechStep(kinds, contiguous, writable, v, op, FixedDetect, NestedDetect, Retype
        ELSE [rejected |-> FALSE, decl |-> c.decl, phys |-> c.phys,
              same |-> op.inplace /\ ~viewed,
              argdecl |-> IF op.inplace /\ ~viewed THEN c.decl ELSE old]
+
+\* ---------------------------------------------------------------------------------
+\* SESSIONS.  The clauses above judge a chain from its own states only; the chains one process executed one after
+\* the other are therefore judged one by one, each exactly as if it had run in a fresh process.  A chain that is
+\* rejected in its session but accepted when executed alone in a fresh process shows module-level state at work:
+\* the harness then reports the session (the earlier chains are part of the case).
+
+\* A deviating mechanism with module-level state (the faithful code keeps none):
+\*     known = {}                      # dtype object -> what the scan of its fields found
+\*     def orders(dtype):
+\*         if dtype not in known:
+\*             if len(known) >= KEEP: del known[next(iter(known))]      # forget the oldest
+\*             known[dtype] = scan(dtype)
+\*         return known[dtype]
+\* The memo M is the dictionary in insertion order, one entry [id, h, now] per key: id = the dtype OBJECT,
+\* h = its content when it was filed (its hash), now = its content today (x.dtype.names = ... changes it
+\* behind the dictionary's back).  A look-up of content c finds an entry filed under c that still equals c.
+\* Deleting the oldest key looks IT up under the hash it has now: when the caller renamed it after it was
+\* filed there is no such entry - KeyError, the conversion raises.
+BOMemoFind(M, c) == {i \in DOMAIN M : M[i].h = c /\ M[i].now = c}
+BOMemoRemove(M, i) == SubSeq(M, 1, i - 1) \o SubSeq(M, i + 1, Len(M))
+\* one consultation on behalf of dtype object id whose content is c:  [memo, raised]
+BOMemoLook(M, id, c, Keep) ==
+    LET new == [id |-> id, h |-> c, now |-> c] IN
+    IF BOMemoFind(M, c) # {} THEN [memo |-> M, raised |-> FALSE]
+    ELSE IF Len(M) < Keep THEN [memo |-> Append(M, new), raised |-> FALSE]
+    ELSE LET hit == BOMemoFind(M, M[1].now) IN
+         IF hit = {} THEN [memo |-> M, raised |-> TRUE]
+         ELSE [memo |-> Append(BOMemoRemove(M, VSetMin(hit)), new), raised |-> FALSE]
+\* the caller renames dtype object id in place (content = [kinds, decl, names, tag])
+BOMemoRename(M, id, names) == [i \in DOMAIN M |-> IF M[i].id = id THEN [M[i] EXCEPT !.now.names = names] ELSE M[i]]
 =============================================================================
